@@ -187,16 +187,31 @@ func pollFd(fd int, events int16, timeout time.Duration) (bool, error) {
 	}
 }
 
-// sockDrops returns the kernel's drop counter of a socket (SO_MEMINFO).
-func sockDrops(fd int) int {
-	var mem [16]uint32
+// memInfo returns SO_MEMINFO of a socket: [0] rmem_alloc, [1] rcvbuf, [8] drops.
+func memInfo(fd int) (mem [16]uint32, ok bool) {
 	l := uint32(len(mem) * 4)
 	_, _, e := unix.Syscall6(unix.SYS_GETSOCKOPT, uintptr(fd), unix.SOL_SOCKET, 0x37, /* SO_MEMINFO */
 		uintptr(unsafe.Pointer(&mem[0])), uintptr(unsafe.Pointer(&l)), 0)
-	if e != 0 || l < 9*4 {
+	return mem, e == 0 && l >= 9*4
+}
+
+// sockDrops returns the kernel's drop counter of a socket.
+func sockDrops(fd int) int {
+	mem, ok := memInfo(fd)
+	if !ok {
 		return 0
 	}
 	return int(mem[8]) // SK_MEMINFO_DROPS
+}
+
+// roomFor reports whether a datagram of n bytes (skb truesize measured here:
+// at most 2n + 1 KB) fits the receive buffer with `reserve` bytes to spare.
+func roomFor(fd, n, reserve int) bool {
+	mem, ok := memInfo(fd)
+	if !ok {
+		return n <= 2048
+	}
+	return int(mem[0])+2*n+1024+reserve <= int(mem[1])
 }
 
 func errClass(err error) string {
